@@ -37,6 +37,21 @@ CHECKS = {
              "from the ownership rules of C05/C06/C10/C11, not from this check.",
         note="trusts rustc layout computation and a small C struct parser; header cross-check covers the types the example header mentions",
         ref="4 C16"),
+    "C12": dict(
+        cat="other",
+        technique="MIR origin tracing (def-use) and discriminant-arm rules over every function that builds/rebuilds slice views or converts option/result/tuple forms",
+        text="these functions are straight-line field shuffles or single discriminant matches, so shape rules are exact for every input: "
+             "(as_ptr,len) of one argument in, (data,len) of one view out, no branch on length, from_utf8 verdict returned unchanged and unchecked "
+             "conversions only in unsafe fn, variant V -> V with payload field i moved to field i and no calls.",
+        note="trusts the documented semantics of as_ptr/len/from_raw_parts/from_utf8 and that moves in safe code are exactly-once",
+        ref="4 C12"),
+    "C13": dict(
+        cat="other",
+        technique="discriminant-arm dominance rules on the int-result helpers, NonZeroI32 type contract + constant/non-zero dataflow on IntError impls, out-parameter wiring rules on every generated int-result method",
+        text="which arm writes/reads the slot and which constant it returns is visible in the CFG of the four helper functions; shipped error types are "
+             "shown never to encode to 0 by a small non-zero dataflow; the generated plumbing is checked per method on the corpus and repository traits.",
+        note="trusts NonZeroI32/MaybeUninit semantics; user-defined IntError impls outside the repository are out of scope",
+        ref="4 C13"),
 }
 
 NOT_APPLICABLE = {
